@@ -28,6 +28,8 @@ Orient(uv, f) == (uv[f[2] + 1][1] - uv[f[1] + 1][1]) * (uv[f[3] + 1][2] - uv[f[1
 NoFold(fs, uv) == \A k \in 1..Len(fs) : Orient(uv, fs[k]) > 0
 \* exact doubled area of the planar lattice triangle = norm of the cross product (integer for axis-aligned planar disks)
 \* two flattenings agree up to a planar rigid motion: all pairwise squared distances agree
+\* (differences are halved before squaring so that disks of up to 20 units stay inside TLC's 32-bit integers)
+UVD2h(uv, a, b) == LET dx == (uv[a][1] - uv[b][1]) \div 2 dy == (uv[a][2] - uv[b][2]) \div 2 IN dx * dx + dy * dy
 SameShape(uv1, uv2) == Len(uv1) = Len(uv2) /\ \A a, b \in 1..Len(uv1) :
-    AbsC(UVD2(uv1, a, b) - UVD2(uv2, a, b)) <= (UVD2(uv1, a, b) \div 1000) + 8 * QU
+    AbsC(UVD2h(uv1, a, b) - UVD2h(uv2, a, b)) <= (UVD2h(uv1, a, b) \div 1000) + 4 * QU
 =============================================================================
